@@ -179,6 +179,12 @@ class _Watch:
         for name in SERIES:
             self.refused(lambda: getattr(m, name)([0, now + d]), f"{name}([0, now+d])")
             self.refused(lambda: getattr(m, name)([now + d, 0]), f"{name}([now+d, 0])")
+        from pams.index_market import IndexMarket
+        if isinstance(m, IndexMarket):
+            for name in ("get_index", "get_market_index", "compute_market_index", "get_fundamental_index",
+                         "compute_fundamental_index"):
+                self.refused(lambda: getattr(m, name)(now + d), f"{name}(now+d)")
+                self.refused(lambda: getattr(m, name)(now + 1), f"{name}(now+1)")
         for kk in (1, 3):
             for name in SERIES[:3] + SERIES[4:5]:
                 self.refused(lambda: getattr(m, name)(range(now + kk + 1)), f"{name}(range(now+{kk}+1))")
